@@ -417,7 +417,9 @@ fn issuer_keys(cfg: &Cfg, rep: &mut Report, h: u64, steps: usize, mode: u32) {
         invoke::<()>(e, r, "add_trusted_issuer", args!(e, issuer.clone(), tv)).unwrap();
     }
     let nkeys = if mode == 2 { 52 } else { 4 };
-    let keys: Vec<(Vec<u8>, u32)> = (0..nkeys).map(|i| (vec![i as u8 + 1, 7, 7, (i * 3) as u8], 101 + (i % 3) as u32)).collect();
+    // in the small universe keys 0/1 and 2/3 share their BYTES and differ only in the scheme: a signing
+    // key is the pair (bytes, scheme)
+    let keys: Vec<(Vec<u8>, u32)> = (0..nkeys).map(|i| { let b = if mode == 0 { i / 2 } else { i }; (vec![b as u8 + 1, 7, 7, (b * 3) as u8], 101 + (i % 3) as u32) }).collect();
     // model: key -> list of (topic, registry)
     let mut pairs: BTreeMap<usize, Vec<(u32, usize)>> = BTreeMap::new();
     let topic_keys = |pairs: &BTreeMap<usize, Vec<(u32, usize)>>, t: u32| -> BTreeSet<usize> { pairs.iter().filter(|(_, v)| v.iter().any(|(x, _)| *x == t)).map(|(k, _)| *k).collect() };
@@ -644,10 +646,11 @@ fn documents(cfg: &Cfg, rep: &mut Report, h: u64, steps: usize, to_max: bool) {
         let ts = e.ledger().timestamp();
         let k = rng.below(100);
         let grow = to_max || docs.len() < 60;
+        let bulk = !to_max && step < 58; // reach the second bucket early, then churn
         let (desc, want, r): (String, bool, Result<(), Fail>);
-        if k < if grow { 75 } else { 45 } {
-            let i = if rng.chance(1, 5) && !docs.is_empty() { *docs.keys().nth(rng.idx(docs.len())).unwrap() } else { let x = fresh % universe; fresh += 1; x };
-            let ulen = *rng.pick(&[0usize, 5, 199, 200, 201]);
+        if bulk || k < if grow { 75 } else { 45 } {
+            let i = if !bulk && rng.chance(1, 5) && !docs.is_empty() { *docs.keys().nth(rng.idx(docs.len())).unwrap() } else { let x = fresh % universe; fresh += 1; x };
+            let ulen = if bulk { 5 } else { *rng.pick(&[0usize, 5, 199, 200, 201]) };
             let uri: String = "u".repeat(ulen);
             let hsh: [u8; 32] = rng.bytes();
             want = ulen <= 200 && (docs.contains_key(&i) || docs.len() < 5000);
@@ -988,7 +991,7 @@ pub fn run(cfg: &Cfg, rep: &mut Report) {
             (600, &|c, r, h| issuer_keys(c, r, h, 60, 1)),
             (700, &|c, r, h| issuer_keys(c, r, h, 70, 2)),
             (800, &|c, r, h| token_binder(c, r, h, c.pick(60, 120), false)),
-            (900, &|c, r, h| documents(c, r, h, c.pick(150, 300), false)),
+            (900, &|c, r, h| documents(c, r, h, c.pick(260, 500), false)),
             (1000, &|c, r, h| identities(c, r, h, c.pick(150, 300))),
             (1100, &|c, r, h| claims(c, r, h, c.pick(100, 200))),
             (1200, &|c, r, h| compliance(c, r, h, c.pick(150, 300))),
